@@ -315,8 +315,67 @@ def r4(F, rep):
             detail="fit gradients would be evaluated in the wrong frame", func=g.q)
 
 
+def r5(F, rep):
+    rep.rule("C02-R5", "reference coordinates read from a file reach the atoms they belong to: create_sorted_ids() defines "
+                       "sorted_atoms_ids_map[k] as the position, in the group's own order, of the k-th atom in sorted order; "
+                       "load_coords() therefore subscripts its output (group order) with map[i] and the buffer filled by the "
+                       "file readers (sorted order) with i -- not the other way round")
+    d = F.one("colvarmodule::atom_group::create_sorted_ids")
+    res = X.const_locals(d)
+    defs = [(w, t) for w, t in lvalue_writes(d) if "sorted_atoms_ids_map" in X.key(t, d) and w.get("op") == "=" and
+            X.strip(t)["k"] in ("CXXOperatorCallExpr", "ArraySubscriptExpr")]
+    ok = False
+    for w, t in defs:
+        rhs = X.kids(w)[1] if w["k"] == "BinaryOperator" else X.call_args(w)[1]
+        k = X.re_strip(X.key(rhs, d, res))
+        # value = std::find(atoms_ids.begin(), atoms_ids.end(), <sorted element>) - atoms_ids.begin()
+        ok = "find" in k and "this.atoms_ids.begin()" in k
+        sub = X.call_args(X.strip(t))[1] if X.strip(t)["k"] == "CXXOperatorCallExpr" else X.kids(X.strip(t))[1]
+        subk = X.key(sub, d)
+        same = any("sorted_atoms_ids" in X.key(t2, d) and "map" not in X.key(t2, d) and
+                   X.key((X.call_args(X.strip(t2))[1] if X.strip(t2)["k"] == "CXXOperatorCallExpr" else X.kids(X.strip(t2))[1]), d) == subk
+                   for w2, t2 in lvalue_writes(d) if X.strip(t2)["k"] in ("CXXOperatorCallExpr", "ArraySubscriptExpr"))
+        rep.add("C02-R5", "map|definition", d.loc(w), "sorted_atoms_ids_map[k] = position of the k-th sorted id within atoms_ids (value from find in atoms_ids: %s; k also subscripts sorted_atoms_ids: %s)" % (ok, same),
+                ok and same, func=d.q)
+    if not defs:
+        raise AnalysisBroken("create_sorted_ids: definition of sorted_atoms_ids_map not found")
+    fs = [f for f in F.func_q("colvarmodule::load_coords") if any(X.callee_name(c) == "sorted_ids_map" for c in X.calls(f))]
+    if not fs:
+        raise AnalysisBroken("colvarmodule::load_coords (user of sorted_ids_map) not found")
+    f = fs[0]
+    maps = {v["d"] for v in f.walk() if v["k"] == "VarDecl" and X.kids(v) and X.mentions(X.kids(v)[0], lambda y: X.callee_name(y) == "sorted_ids_map")}
+    # the buffer handed to the file readers
+    bufs = set()
+    for c in X.calls(f):
+        if X.callee_name(c) in ("load_coords_xyz", "load_coords_pdb"):
+            for a in X.call_args(c):
+                for y in f.walk(a):
+                    if y["k"] == "DeclRefExpr" and y.get("st") == "local" and "vector" in f.type(y):
+                        bufs.add(y["d"])
+    params = {p["d"] for p in f.params}
+    n = 0
+    for w, t in lvalue_writes(f):
+        if w.get("op") != "=" or not X.mentions(w, lambda y: y["k"] == "DeclRefExpr" and y.get("d") in maps):
+            continue
+        n += 1
+        lhs, rhs = (X.kids(w) if w["k"] == "BinaryOperator" else X.call_args(w))[:2]
+
+        def role(e):
+            through_map = X.mentions(e, lambda y: y["k"] == "DeclRefExpr" and y.get("d") in maps)
+            base = "output" if X.mentions(e, lambda y: y["k"] == "DeclRefExpr" and y.get("d") in params) else (
+                "buffer" if X.mentions(e, lambda y: y["k"] == "DeclRefExpr" and y.get("d") in bufs) else "?")
+            return base, through_map
+        rl, rr = role(lhs), role(rhs)
+        ok = (rl == ("output", True) and rr == ("buffer", False))
+        rep.add("C02-R5", "map|use", f.loc(w), "load_coords(): %s[%s] = %s[%s]" % (rl[0], "map[i]" if rl[1] else "i", rr[0], "map[i]" if rr[1] else "i"), ok,
+                detail="with the inverse permutation every group whose atoms are not listed in ascending order gets another atom's reference position", func=f.q)
+    if n < 1:
+        raise AnalysisBroken("load_coords: copy through sorted_ids_map not found")
+
+
 def run(F, rep, tier):
     r1(F, rep)
     r2(F, rep)
     r3(F, rep)
     r4(F, rep)
+    r5(F, rep)
